@@ -75,6 +75,9 @@ func genC05Plan(r *sim.Rng, tier string) PayloadPlan {
 			it = WireItem{Type: []int{8, 9}[r.Intn(2)], Gen: "rand", N: []int{0, 1, 2, 3, 4, 5, 6, 7, 9, 12, 40}[r.Intn(11)]}
 		case 2, 3:
 			it = WireItem{Type: 9, Gen: "video_hdr", N: []int{0, 1, 2, 3, 4, 5, 8, 20, 200}[r.Intn(9)], Shape: r.Intn(64)}
+			if r.Bool(0.3) {
+				it = WireItem{Type: 9, Gen: "ex_video_trunc", N: r.Intn(12), Shape: r.Intn(60)}
+			}
 		case 4:
 			it = WireItem{Type: 9, Gen: "nal_zero_len", N: r.Intn(8), Shape: r.Intn(1024)}
 		case 5:
